@@ -14,6 +14,7 @@ From Cedar Require Export PolicySetRun.
 From Cedar Require Export Batched.
 From Cedar Require Export TypecheckRun.
 From Cedar Require Export SchemaSynRun.
+From Cedar Require Export ExtParse.
 
 Definition dispatchers : list (string -> list sexp -> option sexp) :=
   [ run_core
@@ -28,6 +29,7 @@ Definition dispatchers : list (string -> list sexp -> option sexp) :=
   ; run_batched
   ; run_typecheck
   ; run_schema_syn
+  ; run_ext
   ].
 
 Fixpoint dispatch (ds : list (string -> list sexp -> option sexp)) (cmd : string) (args : list sexp) : sexp :=
